@@ -10,6 +10,7 @@ CONSTANTS
   PingReaderCtx = "ping"
   PingErrSend = "select"
   PingUnrMax = 1
+  DeliveryHoldsRLock = FALSE
   KF_HalfCloseOnly = TRUE
 INVARIANTS
   NoPanic
